@@ -184,6 +184,12 @@ func executeKeySet(t *testing.T, prop string, seed uint64, p *KeySetPlan) *core.
 		core.Beat()
 		res.Evals++
 		what := fmt.Sprintf("list %v (0 = the key the hello is sealed to; %d other keys share its config id)", l, sameID)
+		if li%5 == 4 && has {
+			// merged key files: the key the hello is sealed to is listed once more at the end
+			specs = append(specs, pool[0])
+			what += " + key 0 once more at the end"
+			res.Probe("target_key_listed_twice")
+		}
 		fail := func(class, site, f string, a ...any) {
 			if p.Hint == nil {
 				p.Hint = l
